@@ -82,6 +82,19 @@ def _run(pm: ProgramModel, ctx: Ctx, mb: ModelBuilder, cd: Codec) -> None:
         mb.relation(root, [mb.feature("A", is_abstract=not flag)], 1, 1)
         cd.report("FIELDS", f"abstract={flag}", cd.roundtrip(mb.model(root, [])), f"abstract flag {flag}", ("abstract",))
     cd.abstract_positions(mb)
+
+    def typed(f: AObj) -> None:
+        f._f["feature_type"] = EnumVal("FeatureType", "REAL", ft.get("REAL"))
+
+    def multi(f: AObj) -> None:
+        f._f["feature_cardinality"] = AObj("Cardinality", min=0, max=-1)
+
+    def attributed(f: AObj) -> None:
+        f._f["attributes"].append(mb.attribute("note", "x y", f))
+        f._f["attributes"].append(mb.attribute("zero", 0, f))
+    cd.positions_sweep(mb, "TYPES", "type", ("type",), typed, "a Real feature type")
+    cd.positions_sweep(mb, "FIELDS", "fcard", ("fcard",), multi, "feature cardinality [0..*]")
+    cd.positions_sweep(mb, "VALUES", "attributes", ("attribute",), attributed, "attributes")
     # attribute + type + cardinality + abstract on one feature
     root = mb.feature("Root")
     f = mb.feature("All", is_abstract=True, ftype=EnumVal("FeatureType", "INTEGER", ft.get("INTEGER")), card=(0, 2))
@@ -90,7 +103,8 @@ def _run(pm: ProgramModel, ctx: Ctx, mb: ModelBuilder, cd: Codec) -> None:
     cd.report("FIELDS", "all-decorations", cd.roundtrip(mb.model(root, [])), "typed, abstract multi-feature with attribute",
               ("type", "fcard", "abstract", "attribute"))
     # ATTRIBUTE VALUES --------------------------------------------------------------------------------
-    values = {"none": None, "true": True, "false": False, "int": 7, "negative-int": -3, "float": 2.5,
+    values = {"none": None, "true": True, "false": False, "int": 7, "zero": 0, "zero-float": 0.0,
+              "empty-map": {}, "negative-int": -3, "float": 2.5,
               "str": "some text", "list": [1, 2.5, "a"], "list-with-bool": [1, True],
               "nested-map": {"k": 1, "inner": {"x": "y"}}, "empty-list": []}
     for vk, v in values.items():
